@@ -92,11 +92,16 @@ UNIONS = [["int", "str"], ["bool", "str"], ["float", "str"], ["int", "xdate"], [
           ["int", "bool", "str"], ["xdatetime", "xdate", "str"], ["int", "float"], ["qname", "int"]]
 
 
-def _texty(s):
+_NCNAME_LIKE = __import__("re").compile(r"[^\W\d][\w.\-\u00b7\u0387]*")
+
+
+def _texty(s, qname_too=False):
     """A str value that no earlier-priority type would claim (so it stays a str on the way back)."""
     t = s.strip()
     if not t:
         return True
+    if qname_too and _NCNAME_LIKE.fullmatch(t):
+        return False
     for f in (int, float, Decimal):
         try:
             f(t)
@@ -189,7 +194,7 @@ class _Builder:
 
     def class_name(self):
         d = self.draw
-        base = d(st.sampled_from(["Root", "Item", "Node", "Order", "thing", "A", "Élan"]))
+        base = d(st.sampled_from(["Root", "Item", "Node", "Ordr", "thing", "A", "Élan"]))
         name = base
         while name in self.used_class_names or name.lower() in self.used_type_names:
             name = f"{base}{next(self.names)}"
@@ -206,7 +211,9 @@ class _Builder:
             c["meta"]["namespace"] = d(st.sampled_from(URIS[:3]))
         if d(st.integers(0, 3)) == 0:
             # type names are unique per namespace in XSD; keep xsi:type lookups unambiguous
-            name = d(st.sampled_from(NCNAMES))
+            # (a type whose qualified name equals the name of the element it is used under is written without
+            #  xsi:type - recorded finding - so type names live in their own alphabet, ending in "T")
+            name = d(st.sampled_from(NCNAMES)) + "T"
             while name.lower() in self.used_type_names:
                 name += "t"
             c["meta"]["name"] = name
@@ -229,16 +236,20 @@ class _Builder:
             c["frozen"] = self.classes[base]["frozen"]
             c["kw_only"] = True
             c["slots"] = False
+        if any(f["kind"] == "Text" and f["tokens"] for f in inherited):
+            c["meta"].pop("nillable", None)     # a nil element gives a tokens text field None instead of []
         has_text = any(f["kind"] == "Text" for f in inherited)
         has_elem = any(f["kind"] in ("Element", "Elements", "Wildcard") for f in inherited)
         simple = (want_text if want_text is not None else d(st.integers(0, 4)) == 0) and not has_elem
-        used = {self.local_of(c2, f) for c2, f in ((self.owner(f), f) for f in inherited)} if False else set()
-        used = {f["_local"] for f in inherited}
+        used = set()
+        for f in inherited:
+            used |= {f.get("_local"), f.get("name"), f.get("wrapper")} | {ch["name"] for ch in f.get("choices", ())}
+        used.discard(None)
         nfields = d(st.integers(0 if base is not None else 1, o.max_fields))
         seq_open = None
         # a mixed wildcard owns all child content of its element (also inherited content)
         mixed_wild = any(f.get("mixed") for f in inherited)
-        self.allow_mixed = not has_elem and not has_text
+        c["_allow_mixed"] = not has_elem and not has_text
         for i in range(nfields):
             kinds = ["Attribute", "Attribute"]
             if simple or has_text:
@@ -455,6 +466,14 @@ class _Builder:
                 if "namespace" in self.classes[base]["meta"] and "namespace" not in self.classes[sub]["meta"]:
                     self.classes[sub]["meta"]["namespace"] = self.classes[base]["meta"]["namespace"]
                 f["subs"] = [sub]
+                if d(st.integers(0, 2)) == 0:      # a grandchild: xsi:type two levels below the declared type
+                    sub2 = self.new_class(depth + 1, base=sub)
+                    for k in ("namespace",):
+                        if k in self.classes[sub]["meta"] and k not in self.classes[sub2]["meta"]:
+                            self.classes[sub2]["meta"][k] = self.classes[sub]["meta"][k]
+                    if f["nillable"]:
+                        self.classes[sub2]["meta"].pop("nillable", None)
+                    f["subs"].append(sub2)
             return f
         if kind == "Elements":
             n = d(st.integers(2, 3))
@@ -492,7 +511,7 @@ class _Builder:
             f["_local"] = f"__wild{idx}"
             f["card"] = d(st.sampled_from(["opt", "list", "list"]))
             f["wild_ns"] = d(st.sampled_from([None, "##any", "##any", "##other", "##local", "##targetNamespace"])) if o.namespaces else "##any"
-            if o.mixed and self.allow_mixed and f["card"] == "list" and d(st.integers(0, 3)) == 0:
+            if o.mixed and c.get("_allow_mixed") and f["card"] == "list" and d(st.integers(0, 3)) == 0:
                 f["mixed"] = True
             return f
         raise KeyError(kind)
@@ -1018,8 +1037,14 @@ def instance_of(draw, spec, cid, cr=False, parent_ns=None):
             def one():
                 ch = draw(st.sampled_from(f["choices"]))
                 if ch.get("tokens"):
-                    return _seq(frozen, [value_for_types(draw, spec, ch["types"], "token", cr, frozen) for _ in range(draw(st.integers(1, 3)))])
-                return _nonempty(value_for_types(draw, spec, ch["types"], "elem", cr, frozen, inst_ns), ch, {})
+                    toks = [value_for_types(draw, spec, ch["types"], "token", cr, frozen) for _ in range(draw(st.integers(1, 3)))]
+                    toks = [("t:" + t) if isinstance(t, str) and not _texty(t, qname_too=True) else t for t in toks]
+                    return _seq(frozen, toks)
+                v = _nonempty(value_for_types(draw, spec, ch["types"], "elem", cr, frozen, inst_ns), ch, {})
+                if isinstance(v, str) and not _texty(v, qname_too=True):
+                    # the serializer routes a value to the first choice whose type accepts it
+                    v = "t: " + v
+                return v
             if f["card"] == "list":
                 kw[py] = _seq(frozen, [one() for _ in range(draw(st.integers(0, 4)))])
             else:
@@ -1114,3 +1139,21 @@ def has_plain_qname(data):
     if isinstance(data, list):
         return any(has_plain_qname(v) for v in data)
     return False
+
+
+def has_plain_type(spec):
+    """Is there a class reachable through xsi:type whose target name has no namespace?"""
+    if spec.get("ns"):
+        return False
+    for c in spec["classes"]:
+        if c["base"] is not None and not (c["meta"].get("target_namespace") or c["meta"].get("namespace")):
+            return True
+    return False
+
+
+def model_uris(*data):
+    """Namespace URIs that occur anywhere in the given (encoded) spec / instance data."""
+    import json
+    import re
+    txt = json.dumps(data)
+    return sorted(set(re.findall(r"(?:urn:[a-z]+|http://x\.org/ns)", txt)))
